@@ -14,6 +14,7 @@ from vlib import cnat, cbool, clist, copt, cpair
 ID = "C15"
 GO_PKG = "./lib/discov/internal"
 GO_PKG_CONT = "./lib/discov"
+GO_PKG_RES = "./rpc/resolver/internal"
 R = "lib/discov/internal/registry.go"
 S = "lib/discov/subscriber.go"
 GEN_SPEC = {"items": [
@@ -39,6 +40,8 @@ GEN_SPEC = {"items": [
     {"kind": "calls", "file": S, "func": "container.notifyChange", "as": "calls_notifyChange"},
     {"kind": "calls", "file": S, "func": "container.getValues", "as": "calls_getValues"},
     {"kind": "calls", "file": S, "func": "NewSubscriber", "as": "calls_NewSubscriber"},
+    {"kind": "calls", "file": "rpc/resolver/internal/discovbuilder.go", "func": "discovBuilder.Build", "as": "calls_Build"},
+    {"kind": "const", "file": "rpc/resolver/internal/resolver.go", "name": "subsetSize"},
 ]}
 QUICK_N = 300
 THOROUGH_N = 5000
@@ -50,14 +53,19 @@ RULE = ("85% histories of 3-40 events over 2-7 keys under the prefix (each key b
         "(exclusive or not) attaching at random points through Registry.Monitor; every subscriber's real container is fed "
         "the calls its listener was observed to receive and sampled after every event; 15% stand-alone container call "
         "sequences (a third of them outside the one-value-per-key proviso). Fixed directed histories first (stale-snapshot "
-        "witness, late join, exclusive takeover). non-trivial = a history with a subscriber, a missed change later repaired "
+        "witness, late join, exclusive takeover; after a late join every deletion order of keys sharing values; the same key delivered "
+        "2-3 times then one delete; resolver Build with events delivered while its first UpdateState is in progress), plus n/12 "
+        "random resolver cases (rpc/resolver/internal: pre/during/post events around discovBuilder.Build on the scripted etcd, "
+        "recording ClientConn.UpdateState). non-trivial = a history with a subscriber, a missed change later repaired "
         "by a reload or subscribe, and a delete; distinct = distinct canonical case JSON")
 TRUSTED = ["scripted etcd (fake EtcdClient in the driver: Get = sorted snapshot of the store under the requested prefix at the "
            "current revision, Watch = a stream fed by the driver) and scripted connectivity states",
            "watch goroutines are serialised by the driver (one event, then an empty response as barrier, per stream); reload "
            "is awaited through the Watch call it ends with",
            "etcd revision semantics reduced to: the stream opened after a snapshot at revision r starts at r+1 and misses nothing"]
-ASSUMPTIONS = ["each key carries one value during its life (the quantifier's proviso); histories outside it are only used to "
+ASSUMPTIONS = ["resolver: at most subsetSize = 32 distinct values (subset() truncates beyond that); events can be injected during "
+               "Build only while its first UpdateState call is in progress (the only point the ClientConn can hold it)",
+               "each key carries one value during its life (the quantifier's proviso); histories outside it are only used to "
                "validate the model",
                "single watched prefix per cluster; Get never fails (load retries forever otherwise)",
                "in exclusive mode 'most recent key' is the most recent OnAdd received by that subscriber: keys learnt from "
@@ -175,8 +183,80 @@ def directed():
     return out
 
 
+def _res(rng):
+    prefix = rng.choice(["svc", "a.rpc"])
+    nk = rng.randint(1, 5)
+    nv = rng.randint(1, 3)
+    keys = ["%s/%d" % (prefix, 7587 + i) for i in range(nk)] + [prefix + "x/1"]
+    val = {k: VALS[rng.randrange(nv)] for k in keys}
+    present = set()
+
+    def evs(n, p_miss):
+        out = []
+        for _ in range(n):
+            k = rng.choice(keys)
+            d = rng.random() >= p_miss
+            if k in present and rng.random() < 0.5:
+                out.append({"t": "del", "k": k, "d": d})
+                present.discard(k)
+            else:
+                out.append({"t": "put", "k": k, "v": val[k], "d": d})
+                present.add(k)
+        return out
+    return {"kind": "res", "prefix": prefix, "pre": evs(rng.randint(0, 4), 0.3), "during": evs(rng.randint(0, 4), 0.0),
+            "post": evs(rng.randint(0, 5), 0.05)}
+
+
+def late_join_family():
+    """(2) keys sharing values: after a late join delete the keys one at a time, in every order."""
+    import itertools
+    out = []
+    keys = [("svc/1", "a"), ("svc/2", "a"), ("svc/3", "b")]
+    for x in (False, True):
+        for perm in itertools.permutations([k for k, _ in keys]):
+            ev = [SUB()] + [P(k, v) for k, v in keys] + [SUB(x)] + [D(k) for k in perm]
+            out.append({"kind": "hist", "prefix": "svc", "events": ev})
+    keys4 = [("svc/1", "a"), ("svc/2", "a"), ("svc/3", "a"), ("svc/4", "b")]
+    for i, perm in enumerate(itertools.permutations([k for k, _ in keys4])):
+        if i % 4 == 0:   # 6 of the 24 orders; puts partly missed so that the joiner learns them from its own load too
+            ev = [SUB()] + [P(k, v, d=(j % 2 == 0)) for j, (k, v) in enumerate(keys4)] + [SUB()] + [D(k) for k in perm]
+            out.append({"kind": "hist", "prefix": "svc", "events": ev})
+    return out
+
+
+def duplicate_family():
+    """(3) the same (key, value) delivered several times, then one delete."""
+    out = []
+    for x in (False, True):
+        for n in (2, 3):
+            # re-put of the key by the same publisher; with two more subscribers every event is delivered 1x, 2x, 3x
+            out.append({"kind": "hist", "prefix": "svc", "events": [SUB(x)] + [P("svc/1", "a")] * n + [D("svc/1")]})
+            out.append({"kind": "hist", "prefix": "svc", "events": [SUB(x)] * n + [P("svc/1", "a"), P("svc/2", "a"), D("svc/1"), D("svc/2")]})
+            out.append({"kind": "cont", "excl": x, "ops": [{"op": "listen"}] + [{"op": "add", "k": "k1", "v": "a"}] * n +
+                        [{"op": "get"}, {"op": "del", "k": "k1", "v": ""}, {"op": "get"}]})
+            out.append({"kind": "cont", "excl": x, "ops": [{"op": "add", "k": "k2", "v": "a"}] + [{"op": "add", "k": "k1", "v": "a"}] * n +
+                        [{"op": "get"}, {"op": "del", "k": "k1", "v": ""}, {"op": "get"}, {"op": "del", "k": "k2", "v": ""}, {"op": "get"}]})
+    return out
+
+
+def resolver_family():
+    """(1) updates processed while Build is pushing its first state."""
+    R = lambda pre, during, post: {"kind": "res", "prefix": "svc", "pre": pre, "during": during, "post": post}
+    return [
+        R([], [P("svc/1", "a")], []),
+        R([P("svc/1", "a")], [D("svc/1")], []),
+        R([P("svc/1", "a", False)], [P("svc/2", "b"), D("svc/1")], [P("svc/3", "a")]),
+        R([P("svc/1", "a"), P("svc/2", "a")], [D("svc/1")], [D("svc/2")]),
+        R([], [], []),
+        R([P("svc/1", "a")], [], [D("svc/1")]),
+    ]
+
+
 def generate(rng, tier, n):
-    cases = list(directed())
+    cases = list(directed()) + resolver_family() + late_join_family() + duplicate_family()
+    nres = max(6, n // 12)
+    for _ in range(nres):
+        cases.append(_res(rng))
     while len(cases) < n:
         r = rng.random()
         if r < 0.80:
@@ -191,13 +271,18 @@ def generate(rng, tier, n):
 
 
 def search(rng, problems):
-    out = list(directed())
+    out = list(directed()) + resolver_family() + late_join_family() + duplicate_family()
+    out += [_res(rng) for _ in range(20)]
     for _ in range(60):
         out.append(_hist(rng, n_events=rng.randint(4, 10)))
     return out
 
 
 # ----------------------------------------------------------------------------- drivers
+def _hist_cases(cases):
+    return [i for i, c in enumerate(cases) if c["kind"] == "hist"]
+
+
 def _cont_cases_of(case, hobs):
     """container cases for the subscribers of a history, from the calls observed in stage 1"""
     steps = hobs.get("steps") or []
@@ -240,6 +325,15 @@ def drive(cases, tier):
         if c["kind"] == "cont":
             per_case[i] = (None, [{"excl": c["excl"], "start": 0, "ops": c["ops"], "slot": len(cont_in)}])
             cont_in.append({"excl": c["excl"], "ops": c["ops"]})
+    res_idx = [i for i, c in enumerate(cases) if c["kind"] == "res"]
+    robs = {}
+    if res_idx:
+        ro, l3 = vlib.run_driver(GO_PKG_RES, [{k: cases[i][k] for k in ("prefix", "pre", "during", "post")} for i in res_idx],
+                                 name="C15r_" + tier[0], timeout=DRIVER_TIMEOUT)
+        log += l3
+        if ro is None:
+            return None, log
+        robs = dict(zip(res_idx, ro))
     cobs = []
     if cont_in:
         cobs, l2 = vlib.run_driver(GO_PKG_CONT, cont_in, name="C15c_" + tier[0], timeout=DRIVER_TIMEOUT)
@@ -248,6 +342,9 @@ def drive(cases, tier):
             return None, log
     out = []
     for i, c in enumerate(cases):
+        if c["kind"] == "res":
+            out.append({"res": robs[i]})
+            continue
         ho, subs = per_case[i]
         conts = []
         for s in subs:
@@ -287,7 +384,27 @@ def _keys(ids, calls, sign):
     return clist([ids.key(k) for k in out])
 
 
+def _encode_res(case, obs):
+    ids = _Ids()
+    events = []
+    for ev in case["pre"] + [{"t": "sub"}] + case["during"] + case["post"]:
+        if ev["t"] == "put":
+            events.append("Put %s %s %s" % (ids.key(ev["k"]), ids.val(ev["v"]), cbool(ev["d"])))
+        elif ev["t"] == "del":
+            events.append("Del %s %s" % (ids.key(ev["k"]), cbool(ev["d"])))
+        else:
+            events.append("Subscribe [] [] []")
+    r = obs.get("res") or {}
+    states = r.get("states") or []
+    fine = bool(r) and r.get("stuck") == "" and r.get("gated") and r.get("streams") == 1
+    under = [ids.key(k) for k in sorted(ids.k) if k.startswith(case["prefix"] + "/")]
+    q = "mkres %s %s" % (clist([clist([ids.val(v) for v in st]) for st in states]), cbool(fine))
+    return "mkcase %s %s [] [] (Some (%s))" % (clist(under), clist(events), q)
+
+
 def encode(case, obs):
+    if case["kind"] == "res":
+        return _encode_res(case, obs)
     ids = _Ids()
     events, steps = [], []
     if case["kind"] == "hist":
@@ -339,11 +456,13 @@ def encode(case, obs):
     under = []
     if case["kind"] == "hist":
         under = [ids.key(k) for k in sorted(ids.k) if k.startswith(case["prefix"] + "/")]
-    return "mkcase %s %s %s %s" % (clist(under), clist(events), clist(steps), clist(conts))
+    return "mkcase %s %s %s %s None" % (clist(under), clist(events), clist(steps), clist(conts))
 
 
 # ----------------------------------------------------------------------------- evidence helpers
 def nontrivial(case, obs):
+    if case["kind"] == "res":
+        return len(case["during"]) > 0
     if case["kind"] != "hist":
         return False
     seen_sub = missed = repaired = dele = False
@@ -362,6 +481,9 @@ def nontrivial(case, obs):
 
 
 def bucket(case, obs):
+    if case["kind"] == "res":
+        return ["kind:res", "res-during=%d" % len(case["during"]), "res-post=%d" % len(case["post"])] + (
+            ["STUCK"] if (obs.get("res") or {}).get("stuck") else [])
     if case["kind"] == "cont":
         return ["kind:cont", "cont-excl" if case["excl"] else "cont-shared", "cont-ops=%d" % (len(case["ops"]) // 10 * 10)]
     ev = case["events"]
